@@ -100,10 +100,13 @@ func (h *Header) Link(key cbc.Key) *Link {
 // and properties are contained within the base header. Only a subset of
 // the most important fields are compared.
 func (h *Header) Contains(h2 *Header) bool {
+	if h == nil || h2 == nil {
+		return false
+	}
 	if h.UUID.String() != h2.UUID.String() {
 		return false
 	}
-	if h2.Digest != nil && h.Digest.String() != h2.Digest.String() {
+	if h2.Digest != nil && (h.Digest == nil || h.Digest.String() != h2.Digest.String()) {
 		return false
 	}
 	for _, s2 := range h2.Stamps {
